@@ -342,7 +342,7 @@ Qed.
 Definition ex19_inp : input :=
   mkInput [mkUAtom UPos 2 false false]
           [mkIStop [(-1)%Z] 10%Z [] None 100%Z [] None 0%Z 0%Z; mkIStop [(-1)%Z] 10%Z [] None 100%Z [] None 0%Z 0%Z]
-          [mkIVehicle (Some [2%Z]) [0%Z] 0%Z None None None None None [] 0%Z true true 0%Z 0%Z]
+          [mkIVehicle (Some [2%Z]) [0%Z] 0%Z None None None None None [] 0%Z true true 0%Z 0%Z 1%Z 1%Z]
           [mkIUnit [0%nat] []; mkIUnit [1%nat] []]
           ex_mat ex_mat 1 ex_opts [].
 Definition ex19_s0 : state :=
@@ -353,7 +353,7 @@ Definition ex19_s1 : state := Eval vm_compute in fst (exec_move ex19_inp ex19_s0
 
 Example ex19_wf : wf_input ex19_inp.
 Proof.
-  split; [|split; [|split; [|exact (Forall_nil _)]]].
+  split; [|split; [|split; [|split; [exact (Forall_nil _)|mult_wf]]]].
   - vm_compute. constructor; [simpl; lia|]. constructor; [simpl; tauto|constructor].
   - intros x. vm_compute. lia.
   - intros u Hu. vm_compute in Hu. destruct Hu as [<-|[<-|[]]]; discriminate.
